@@ -164,7 +164,10 @@ impl Property for P {
             indents: true,
             crlf: true,
         };
-        let mix = Mix::CLEAN.with_endings(6);
+        let mut mix = Mix::CLEAN.with_endings(6);
+        // sequences with a space or a hyphen in the payload are within the
+        // quantifier (every ESC begins a well-formed sequence)
+        mix.esc_tricky = 2;
         (gen::token_text(mix, tier.max_tokens()), gen::optspec(og))
             .prop_map(|(text, spec)| Case { text, spec })
             .boxed()
